@@ -185,12 +185,16 @@ def utility_case(draw):
     return {"dtype": dtype, "which": which, "x": x, "target": tgt, "a": a, "default_a": draw(st.integers(0, 7)) == 0}
 
 
-AX_MAX = 80.0
+AX_MAX = 80.0  # (kept for C04's constructed pairs)
+# the utility value exp(a|x|) itself must stay representable: float32 overflows at a|x| = 88.7, float64 at 709.8;
+# a mean over at most 32 paths is accumulated, so stay a factor 32 below the largest finite number
+AX_MAX_OF = {"float32": 84.0, "float64": 700.0}
 
 
-def effective_a(a: float, d: np.ndarray) -> float:
+def effective_a(a: float, d: np.ndarray, dtype: str = "float32") -> float:
     m = float(np.max(np.abs(d))) if d.size else 0.0
-    return a if a * m <= AX_MAX else AX_MAX / m
+    cap = AX_MAX_OF[dtype]
+    return a if a * m <= cap else cap / m
 
 
 def check_utility(case, ctx):
@@ -205,11 +209,11 @@ def check_utility(case, ctx):
     if iso and not (d > 0).all():
         ctx.cls("skipped:non-positive-sample")  # outside the documented domain of the isoelastic utility
         return
-    a = case["a"] if iso else effective_a(case["a"], d)
+    a = case["a"] if iso else effective_a(case["a"], d, dtype)
     xt = to_torch(x)
     ctx.cls("which:" + which, "dtype:" + dtype, "target:" + case["target"]["kind"], "ndim:%d" % d.ndim)
     if which == "exp_utility":
-        use_default = case["default_a"] and float(np.max(np.abs(d))) <= AX_MAX
+        use_default = case["default_a"] and float(np.max(np.abs(d))) <= AX_MAX_OF[dtype]
         with ctx.sut("C05/exp_utility"):
             got = exp_utility(xt) if use_default else exp_utility(xt, a=a)
         a = 1.0 if use_default else a
